@@ -10,5 +10,5 @@ Lemma is_translated_matches_source (strs : list bstr) :
   is_translated strs = src_pomsg_translated strs.
 Proof.
   unfold is_translated, src_pomsg_translated. rewrite find_existsb.
-  apply existsb_ext. intros a. rewrite bstr_eqb_nil_r. destruct a; reflexivity.
+  apply st_existsb_ext. intros a. rewrite bstr_eqb_nil_r. destruct a; reflexivity.
 Qed.
